@@ -187,7 +187,7 @@ SUBS = {'string': prop_string, 'mapping': prop_mapping}
 
 @st.composite
 def cases(draw, focus):
-    allais = sorted(gs1model.ais())
+    allais = sorted(a for a in gs1model.ais() if gs1model.modelled(a))
     sep = draw(st.sampled_from(SEPS))
     parens = draw(st.booleans())
     k = draw(st.integers(1, 5))
@@ -224,13 +224,14 @@ def shard(a):
 
 def run(ctx):
     core.number_modules()
-    allais = sorted(gs1model.ais())
+    allais = sorted(a for a in gs1model.ais() if gs1model.modelled(a))
     nshard = 16
     args = [{'shard': i, 'i': i, 'ais': allais[i::nshard], 'n': ctx.q(12, 300), 'nfree': ctx.q(150, 6000), 'seed': ctx.seed,
              'known': ctx.known_buckets} for i in range(nshard)]
     res = core.run_shards(shard, args)
     per_ai = dict((k[3:], v) for k, v in res.hist.items() if str(k).startswith('ai:'))
-    res.notes['ais_registered'] = len(allais)
+    res.notes['ais_registered'] = len(gs1model.ais())
+    res.notes['ais_not_modelled'] = sorted(a for a in gs1model.ais() if not gs1model.modelled(a))
     res.notes['ais_exercised'] = len(per_ai)
     res.notes['min_cases_per_ai'] = min(per_ai.values()) if per_ai else 0
     for k in [k for k in res.hist if str(k).startswith('ai:')]:
